@@ -81,6 +81,15 @@ CLAIMS = {
              'decompile keyed by the identity of a code object that is kept alive; string2ast keyed by the exact source text. _get_translator pinned-value check BOUNDED (<= 2).',
         note='Whole-history transparency (sequences of queries interleaved with modifications) is not claimed. construct_sql_ast / ast2sql are recording stubs in the key '
              'contract: what they read beyond their arguments is translator state identified by query._key (assumed).'),
+    'C04': dict(
+        text='Proof over a finite generating set, enumerated completely on the real ast2src / PythonTranslator: for every (parent production, slot, child production) of '
+             'the regenerated expression grammar (54 parent productions incl. boolean / comparison (chains) / bitwise / arithmetic / power / unary operators, conditional '
+             'expressions, lambdas with defaults, attribute, call with positional / keyword / * / ** arguments and generator argument, subscripts, slices, tuples, lists, '
+             'dicts, f-strings with conversions, (nested) format specs and literal braces, generator expressions; 65 child productions incl. constants of every kind and '
+             'folded negative constants) the regenerated text parses back (CPython parser as oracle) to the same tree or is rejected; thorough tier closes depth 3 over the '
+             'operator core. Only the source-regeneration half of C04.',
+        note='The step from depth-2 trees to all trees rests on the locality of parenthesisation in Python\'s expression grammar (assumption). External-node detection '
+             '(PreTranslator), evaluation in the caller frame (extract_vars) and the decompiler are NOT covered.'),
 }
 
 _NOT_BUILT = 'within reach of the technique per DESIGN.md, check not built yet'
